@@ -132,6 +132,7 @@ func (x *Exec) stdlib(s *State, in *ssa.Call, f *ssa.Function, args []Val) Val {
 		return scalar(mk(SIface, "iref", IntLit(9999), r))
 	case "(*bytes.Buffer).WriteString", "(*bytes.Buffer).WriteByte":
 		// the content of a buffer is the ghost string buf(b)
+		x.sharedBuilderCheck(s, in, args[0].T)
 		bufs := x.heapSym(s, "ghost:buf", SArray(SInt, SStr))
 		cur := Select(bufs, args[0].T, SStr)
 		piece := args[1].T
@@ -145,6 +146,7 @@ func (x *Exec) stdlib(s *State, in *ssa.Call, f *ssa.Function, args []Val) Val {
 		x.heapSet(s, "ghost:buf", Store(bufs, args[0].T, x.strCat(s, cur, piece)))
 		return fresh()
 	case "(*bytes.Buffer).Write":
+		x.sharedBuilderCheck(s, in, args[0].T)
 		x.havocKey(s, "ghost:buf")
 		return fresh()
 	case "(*bytes.Buffer).Bytes":
@@ -437,3 +439,11 @@ func (x *Exec) navCall(s *State, in *ssa.Call, recv Val, args []Val, m string) V
 }
 
 func init() { _ = fmt.Sprint }
+
+// sharedBuilderCheck: an XPath function closure is shared by every evaluation (and every clone) of the
+// compiled expression, so a buffer it writes must be one it obtained during this call.
+func (x *Exec) sharedBuilderCheck(s *State, in *ssa.Call, ref T) {
+	if x.fnc != nil && len(s.frames) == 1 && (x.fnc.Conforms == "functionQuery.Func" || x.fnc.Conforms == "transformFunctionQuery.Func") {
+		x.oblige(s, "frame", "shared-builder:"+x.label(in), x.freshTerm(s, ref), in.Pos(), []string{"C04", "C05"})
+	}
+}
